@@ -4,9 +4,11 @@ deliveries in /tmp/mutants and the lab result files, and prints the kill matrix.
 import json, os, re, shutil, sys
 import sys
 WAVE=sys.argv[1] if len(sys.argv)>1 else '1'
-SRC='/tmp/mutants' if WAVE=='1' else '/tmp/mutants2'
-RES=['/verif/tools/mutants/RESULTS_seeded_round1.txt','/verif/tools/mutants/RESULTS_round2.txt'] if WAVE=='1' else ['/verif/tools/mutants/RESULTS_wave2_round1.txt','/verif/tools/mutants/RESULTS_wave2_round2.txt']
-TAG='' if WAVE=='1' else '2' 
+SRC={'1':'/tmp/mutants','2':'/tmp/mutants2','3':'/tmp/mutants3'}[WAVE]
+RES={'1':['/verif/tools/mutants/RESULTS_seeded_round1.txt','/verif/tools/mutants/RESULTS_round2.txt'],
+     '2':['/verif/tools/mutants/RESULTS_wave2_round1.txt','/verif/tools/mutants/RESULTS_wave2_round2.txt'],
+     '3':['/verif/tools/mutants/RESULTS_wave3_round1.txt','/verif/tools/mutants/RESULTS_wave3_round2.txt']}[WAVE]
+TAG={'1':'','2':'2','3':'3'}[WAVE]
 def parse(path):
     out={}
     if not os.path.exists(path): return out
@@ -38,7 +40,7 @@ for pid in sorted(os.listdir(SRC)):
         final=dict(checks); final.update(r2.get(key,{}).get('checks',{}))
         caught=[c for c,val in sorted(final.items()) if val['exit']==1]
         meta={'id':f'{pid}-{TAG}{x}','wave':int(WAVE),'property':pid,'breaks':open(f'{SRC}/{pid}/property.txt').read().split('\n')[0],
-              'origin':'independent sub-agent given only the property text and a scratch worktree of /repo (nothing from /verif)' + ('' if WAVE=='1' else '; wave 2 was also told which two changes already existed for the property and asked for rarer triggers'),
+              'origin':'independent sub-agent given only the property text and a scratch worktree of /repo (nothing from /verif)' + ('' if WAVE=='1' else f'; wave {WAVE} was also told which changes already existed for the property and asked for rarer triggers'),
               'needs_to_manifest':needs,
               'verified_by_me':{'how':'tools/verify_seeded.sh in a scratch worktree (/tmp/mutlab/repo): pinned suite with the change, demonstration with the change, demonstration without it','result':v},
               'checks_run':{'how':'tools/mutlab.sh try <patch> <IDs> (quick tier, default seed) in the scratch lab','first_run':checks,'final':final},
